@@ -52,27 +52,27 @@ theorem mon_doEnqueue (s : St) (w : Nat) (inp : Inp) : Mon s (doEnqueue s w inp)
   Mon.trans (mon_setW s w { getW s w with inbox := (getW s w).inbox ++ [inp], ppw := (getW s w).ppw ++ [inp] } rfl (fun h => h))
     (Mon.of_ws rfl)
 
-theorem mon_markDead {c : Cfg} (hc : Plain c) (s : St) (w : Nat) : Mon s (markDead c s w) := by
+theorem mon_markDead {c : Cfg} (hc : Retrying c) (s : St) (w : Nat) : Mon s (markDead c s w) := by
   rw [markDead_eq hc]
   exact Mon.trans (Mon.of_ws (s := s) (t := { s with retries := s.retries ++ (getW s w).ppw, pending := s.pending - (getW s w).ppw.length }) rfl)
     (mon_setW _ w _ rfl (fun _ => rfl))
 
-theorem closed_markDead {c : Cfg} (hc : Plain c) (s : St) (w : Nat) (hw : w < s.ws.length) :
+theorem closed_markDead {c : Cfg} (hc : Retrying c) (s : St) (w : Nat) (hw : w < s.ws.length) :
     (getW (markDead c s w) w).closed = true := by
   rw [markDead_eq hc, getW_setW_same _ w _ (by exact hw)]
 
 theorem mon_unused (c : Cfg) (s : St) (inp : Inp) (fr : Bool) : Mon s (unused c s inp fr) := by
-  unfold unused
+  unfold unused putBack
   split
   · exact Mon.refl s
   · split <;> exact Mon.of_ws rfl
 
-theorem mon_settle {c : Cfg} (hc : Plain c) {pick : List Nat → Option Nat} :
-    ∀ (fuel : Nat) (s : St), Mon s (settle c pick fuel s) := by
+theorem mon_settle {c : Cfg} (hc : Retrying c) {pick : List Nat → Option Nat} :
+    ∀ (fuel : Nat) (skip : List Nat) (s : St), Mon s (settle c pick fuel skip s) := by
   intro fuel
   induction fuel with
   | zero =>
-    intro s
+    intro skip s
     simp only [settle]
     split
     · exact Mon.refl s
@@ -80,28 +80,31 @@ theorem mon_settle {c : Cfg} (hc : Plain c) {pick : List Nat → Option Nat} :
       · exact Mon.refl s
       · exact Mon.of_ws rfl
   | succ fuel ih =>
-    intro s
-    simp only [settle, giveUp_eq hc.toRetrying]
+    intro skip s
+    simp only [settle, giveUp_eq hc]
     cases hr : s.retries with
     | nil => exact Mon.refl s
     | cons inp rest =>
       simp only
-      cases hpk : pick (idle s) with
+      cases hpk : pick (avail s skip) with
       | none => exact Mon.refl s
       | some w =>
-        simp only [hc.noFn, Bool.false_eq_true, if_false]
+        simp only
         have h0 : Mon s { s with retries := rest } := Mon.of_ws rfl
+        refine Mon.trans ?_ (ih _ _)
         split
-        · exact Mon.trans h0 (Mon.trans (mon_doEnqueue _ w inp) (ih _))
-        · exact Mon.trans h0 (Mon.trans (mon_markDead hc _ w) (Mon.trans (ih _) (Mon.trans (mon_unused c _ inp true) (ih _))))
+        · exact Mon.of_ws rfl
+        · split
+          · exact Mon.trans h0 (mon_doEnqueue _ w inp)
+          · exact Mon.trans h0 (Mon.trans (mon_markDead hc _ w) (Mon.trans (ih _ _) (mon_unused c _ inp true)))
 
-theorem mon_handleDeath {c : Cfg} (hc : Plain c) {pick : List Nat → Option Nat} (s : St) (w : Nat) :
+theorem mon_handleDeath {c : Cfg} (hc : Retrying c) {pick : List Nat → Option Nat} (s : St) (w : Nat) :
     Mon s (handleDeath c pick s w) :=
-  Mon.trans (mon_markDead hc s w) (mon_settle hc _ _)
+  Mon.trans (mon_markDead hc s w) (mon_settle hc _ _ _)
 
-theorem closed_handleDeath {c : Cfg} (hc : Plain c) {pick : List Nat → Option Nat} (s : St) (w : Nat) (hw : w < s.ws.length) :
+theorem closed_handleDeath {c : Cfg} (hc : Retrying c) {pick : List Nat → Option Nat} (s : St) (w : Nat) (hw : w < s.ws.length) :
     (getW (handleDeath c pick s w) w).closed = true :=
-  (mon_settle hc _ _).c w (closed_markDead hc s w hw)
+  (mon_settle hc _ _ _).c w (closed_markDead hc s w hw)
 
 theorem mon_nextInputs (s : St) : Mon s (nextInputs s).2 := by
   unfold nextInputs
@@ -111,10 +114,10 @@ theorem mon_nextInputs (s : St) : Mon s (nextInputs s).2 := by
     · exact Mon.refl s
     · split <;> exact Mon.of_ws rfl
 
-theorem mon_tryEnqueue {c : Cfg} (hc : Plain c) {pick : List Nat → Option Nat} (s : St) (w : Nat) :
+theorem mon_tryEnqueue {c : Cfg} (hc : Retrying c) {pick : List Nat → Option Nat} (s : St) (w : Nat) :
     Mon s (tryEnqueue c pick s w).1 := by
   unfold tryEnqueue
-  simp only [giveUp_eq hc.toRetrying]
+  simp only [giveUp_eq hc, putBack_eq hc]
   have hm := mon_nextInputs s
   generalize nextInputs s = r at hm
   obtain ⟨o, s'⟩ := r
@@ -123,14 +126,16 @@ theorem mon_tryEnqueue {c : Cfg} (hc : Plain c) {pick : List Nat → Option Nat}
   | none => exact hm
   | some p =>
     obtain ⟨fr, inp⟩ := p
-    simp only [hc.noFn, Bool.false_eq_true, if_false]
+    dsimp only
     split
     · exact Mon.trans hm (mon_unused c _ _ _)
     · split
-      · exact Mon.trans hm (mon_doEnqueue _ _ _)
-      · exact Mon.trans hm (Mon.trans (mon_handleDeath hc _ _) (mon_unused c _ _ _))
+      · exact Mon.trans hm (mon_unused c _ _ _)
+      · split
+        · exact Mon.trans hm (mon_doEnqueue _ _ _)
+        · exact Mon.trans hm (Mon.trans (mon_handleDeath hc _ _) (mon_unused c _ _ _))
 
-theorem qinv_onPoll {c : Cfg} (hc : Plain c) {pick : List Nat → Option Nat}
+theorem qinv_onPoll {c : Cfg} (hc : Retrying c) {pick : List Nat → Option Nat}
     {s : St} {w : Nat} (h : QInv s) (hw : w < s.ws.length) : QInv (onPoll c pick s w) := by
   unfold onPoll
   dsimp only
@@ -184,7 +189,7 @@ theorem qinv_onPoll {c : Cfg} (hc : Plain c) {pick : List Nat → Option Nat}
         refine (Mon.trans ?_ (mon_tryEnqueue hc _ w)).qinv h
         exact Mon.trans h1 (Mon.trans h2 (Mon.of_ws rfl))
 
-theorem qinv_step {c : Cfg} (hc : Plain c) {pick : List Nat → Option Nat} {s : St} (ev : Ev) (h : QInv s) :
+theorem qinv_step {c : Cfg} (hc : Retrying c) {pick : List Nat → Option Nat} {s : St} (ev : Ev) (h : QInv s) :
     QInv (step c pick s ev) := by
   cases ev with
   | work w =>
@@ -224,14 +229,14 @@ theorem qinv_step {c : Cfg} (hc : Plain c) {pick : List Nat → Option Nat} {s :
       exact key ws s h
     · exact h
 
-theorem qinv_runEvents {c : Cfg} (hc : Plain c) {pick : List Nat → Option Nat} :
+theorem qinv_runEvents {c : Cfg} (hc : Retrying c) {pick : List Nat → Option Nat} :
     ∀ (evs : List Ev) (s : St), QInv s → QInv (runEvents c pick s evs) := by
   intro evs
   induction evs with
   | nil => intro s h; exact h
   | cons e es ih => intro s h; exact ih _ (qinv_step hc e h)
 
-theorem mon_firstRound {c : Cfg} (hc : Plain c) {pick : List Nat → Option Nat} :
+theorem mon_firstRound {c : Cfg} (hc : Retrying c) {pick : List Nat → Option Nat} :
     ∀ (n k : Nat) (s : St), Mon s (firstRound c pick n k s).1 := by
   intro n
   induction n with
@@ -248,7 +253,7 @@ theorem mon_firstRound {c : Cfg} (hc : Plain c) {pick : List Nat → Option Nat}
       | false => exact hm
       | true => exact Mon.trans hm (ih _ _)
 
-theorem mon_firstEnqueue {c : Cfg} (hc : Plain c) {pick : List Nat → Option Nat} :
+theorem mon_firstEnqueue {c : Cfg} (hc : Retrying c) {pick : List Nat → Option Nat} :
     ∀ (r : Nat) (s : St), Mon s (firstEnqueue c pick r s) := by
   intro r
   induction r with
@@ -263,7 +268,7 @@ theorem mon_firstEnqueue {c : Cfg} (hc : Plain c) {pick : List Nat → Option Na
     | false => exact hm
     | true => exact Mon.trans hm (ih _)
 
-theorem qinv_start {c : Cfg} (hc : Plain c) {pick : List Nat → Option Nat} (n : Nat) (src : List Inp) (pre : List Ev) :
+theorem qinv_start {c : Cfg} (hc : Retrying c) {pick : List Nat → Option Nat} (n : Nat) (src : List Inp) (pre : List Ev) :
     QInv (start c pick n src pre) := by
   unfold start
   apply (mon_firstEnqueue hc _ _).qinv
